@@ -343,3 +343,31 @@ Definition leader_rr (ms : list member) (cluster : list partition) : list triple
 Definition leader_rack (zo ro : bytes -> list bytes) (ms : list member) (cluster : list partition)
   : option (list triple) :=
   rack_assign zo ro ms (leader_partitions ms cluster).
+
+(* ---- the leader's SyncGroup request: makeSyncGroupRequestV0 (consumergroup.go) ----
+   for memberID, topics := range memberAssignments {
+     topics32 := make(map[string][]int32)
+     for topic, partitions := range topics { topics32[topic] = int32(partitions[i])... }
+     GroupAssignments = append(..., {memberID, groupAssignment{Topics: topics32}.bytes()}) }
+   The decoded request: one entry per key of the outer map, holding that member's
+   (topic, int32 partitions) entries.  (Map iteration orders are not observable after
+   sorting; an empty partition list and an absent topic key are identified.) *)
+Definition int32_of (z : Z) : Z := ((z + 2147483648) mod 4294967296 - 2147483648)%Z.
+
+Fixpoint dedup_bytes (l : list bytes) {struct l} : list bytes :=
+  match l with
+  | [] => []
+  | x :: t => if existsb (bytes_eqb x) t then dedup_bytes t else x :: dedup_bytes t
+  end.
+
+Definition sync_member_ids (a : list triple) : list bytes :=
+  dedup_bytes (map (fun tr => fst (fst tr)) a).
+Definition sync_entry (a : list triple) (id : bytes) : list (bytes * list Z) :=
+  map (fun tr => (snd (fst tr), map int32_of (snd tr)))
+      (filter (fun tr => bytes_eqb (fst (fst tr)) id) a).
+Definition sync_request (a : list triple) : list (bytes * list (bytes * list Z)) :=
+  map (fun id => (id, sync_entry a id)) (sync_member_ids a).
+
+(* the request read back as (member, topic, partitions) *)
+Definition wire_triples (w : list (bytes * list (bytes * list Z))) : list triple :=
+  flat_map (fun e => map (fun tp => (fst e, fst tp, snd tp)) (snd e)) w.
